@@ -380,7 +380,7 @@ func (h *histProp) genScale(r *rand.Rand, typ string, idx int64, o gen.Opts) PCa
 		// started with other bytes
 		c := scaleCfg(r, typ, o, 4)
 		if c.HashBits > 2 || r.Intn(4) > 0 {
-			c.HashBits = 1 + r.Intn(2)
+			c.HashBits = 1 + r.Intn(4)/3
 		}
 		if typ == "BUP" {
 			// (buckets that do not wrap before the Shrink)
@@ -390,7 +390,7 @@ func (h *histProp) genScale(r *rand.Rand, typ string, idx int64, o gen.Opts) PCa
 		na, nb := 2+r.Intn(2), 1+r.Intn(2)
 		c.BlockSize = bs
 		c.ShrinkSize = nb * bs
-		c.BufferSize = (na+nb)*bs + 1000
+		c.BufferSize = (na+9)*bs + 100
 		c.WindowSize = c.BufferSize
 		if sa {
 			c.MinMatchLen = 2 + r.Intn(2)
@@ -402,12 +402,16 @@ func (h *histProp) genScale(r *rand.Rand, typ string, idx int64, o gen.Opts) PCa
 		for j, z := 0, 2+r.Intn(9); j < z; j++ {
 			stream = append(stream, 0)
 		}
-		runb := byte(r.Intn(256))
-		if variant%4 == 3 {
-			runb = 0
-		}
-		for len(stream) < c.BufferSize-8 {
-			stream = append(stream, runb)
+		// three runs of different bytes, three blocks each (whichever of them
+		// shares its bucket with the zero value)
+		for k := 0; k < 3; k++ {
+			runb := byte(1 + r.Intn(255))
+			if variant%4 == 3 && k == 2 {
+				runb = 0
+			}
+			for j := 0; j < 3*bs; j++ {
+				stream = append(stream, runb)
+			}
 		}
 		ops := []POp{{K: "write", A: 0, B: len(stream)}}
 		ops = append(ops, parses(na+nb, 0)...)
